@@ -21,6 +21,7 @@ var writeFinishers = map[string]bool{"Create": true, "CreateInBatches": true, "S
 func checkC16(c *Ctx) {
 	p := c.P
 	checkC16NameLookup(c)
+	checkC16KeyAll(c)
 	dbT := p.Named(pkgGorm, "DB")
 
 	// ---- C16.carry ----
